@@ -139,3 +139,26 @@ impl<K: PartialEq + Copy + Default, V: Copy + Default> FxHashMap<K, V> {
         }
     }
 }
+
+// Further std-HashMap surface that a change to the code under test may start using (a seeded change did):
+// kept small and loop-shaped like the rest.
+impl<K: PartialEq + Copy + Default, V: Copy + Default> Extend<(K, V)> for FxHashMap<K, V> {
+    fn extend<I: IntoIterator<Item = (K, V)>>(&mut self, iter: I) {
+        for (k, v) in iter {
+            self.insert(k, v);
+        }
+    }
+}
+
+impl<K: PartialEq + Copy + Default, V: Copy + Default> FxHashMap<K, V> {
+    pub fn get_mut(&mut self, k: &K) -> Option<&mut V> {
+        let mut i = 0;
+        while i < MAP_CAP {
+            if self.used[i] && self.keys[i] == *k {
+                return Some(&mut self.vals[i]);
+            }
+            i += 1;
+        }
+        None
+    }
+}
